@@ -135,7 +135,7 @@ def handle (st : St) (cmd : String) (args : List String) : St × String :=
   | "textval", [t] =>
     match Driver.tokBytes t with
     | some t => (st, match sqlTextVal t with
-        | .val n => s!"val {n}" | .posInf => "posinf" | .overflow => "overflow" | .unmodelled => "unmodelled")
+        | .val n => s!"val {n}" | .posInf => "posinf" | .unmodelled => "unmodelled")
     | none => (st, "bad-op")
   | _, _ => (st, "bad-op")
 
